@@ -17,7 +17,10 @@ package socks5
 // length bound over {C sends, O sends, S sends, T sends, a reply arrives from the mesh
 // (WriteToClient)}, for every configuration {ASSOCIATE address 0.0.0.0:0, 127.0.0.1:0,
 // 127.0.0.1:p, 0.0.0.0:p} x {server bound to 127.0.0.1, 0.0.0.0} x {control connection
-// reports its peer as 127.0.0.1 (TCP), reports no address (WebSocket wsConn)}.
+// reports its peer as 127.0.0.1 (TCP), reports no address (WebSocket wsConn)}; and the same
+// four declarations written in the other two address types a request can carry: IPv6
+// ([::] / [::ffff:127.0.0.1]) and domain name ("0.0.0.0" / "localhost"), each with port 0 and
+// with the client's port (c22Request; shorter sequences, see Lform).
 //
 // Barrier after every sent datagram: loopback sendto() queues synchronously, ReadLoop is
 // one sequential goroutine; the driver waits until the relay socket's receive queue is
@@ -106,19 +109,19 @@ func (c *c22Ctl) LocalAddr() net.Addr {
 	}
 	return &net.TCPAddr{IP: net.IPv4(127, 0, 0, 1), Port: 1080}
 }
-func (c *c22Ctl) RemoteAddr() net.Addr               { return c.remote }
-func (c *c22Ctl) SetDeadline(time.Time) error        { return nil }
-func (c *c22Ctl) SetReadDeadline(time.Time) error    { return nil }
-func (c *c22Ctl) SetWriteDeadline(time.Time) error   { return nil }
+func (c *c22Ctl) RemoteAddr() net.Addr             { return c.remote }
+func (c *c22Ctl) SetDeadline(time.Time) error      { return nil }
+func (c *c22Ctl) SetReadDeadline(time.Time) error  { return nil }
+func (c *c22Ctl) SetWriteDeadline(time.Time) error { return nil }
 
 // ---------------------------------------------------------------------------
 // recording mesh side
 // ---------------------------------------------------------------------------
 
 type c22Mesh struct {
-	mu      sync.Mutex
-	assoc   *UDPAssociation
-	relayed []string
+	mu       sync.Mutex
+	assoc    *UDPAssociation
+	relayed  []string
 	declared *net.UDPAddr
 }
 
@@ -253,9 +256,115 @@ func c22Quiesce(relay *net.UDPConn) error {
 // ---------------------------------------------------------------------------
 
 type c22Config struct {
-	Declared string `json:"declared"` // none | ip-only | ip+port | port-only
-	Bind     string `json:"bind"`     // loopback | any
-	Control  string `json:"control"`  // tcp | ws
+	Declared string `json:"declared"`       // none | ip-only | ip+port | port-only: (unspecified / specific address) x (zero / the client's port)
+	Form     string `json:"form,omitempty"` // address type of the ASSOCIATE request: "" = ipv4 | ipv6 | domain
+	Bind     string `json:"bind"`           // loopback | any
+	Control  string `json:"control"`        // tcp | ws
+}
+
+// c22Forms: the address types a SOCKS5 request can carry (RFC 1928 section 4: ATYP 1, 4, 3).
+var c22Forms = []string{"ipv4", "ipv6", "domain"}
+
+func (c c22Config) form() string {
+	if c.Form == "" {
+		return "ipv4"
+	}
+	return c.Form
+}
+
+// class is what the declaration amounts to for the oracle and the fingerprint: an IP address the
+// server can compare (the client's own, as 4 bytes or as the 16-byte ::ffff:127.0.0.1) and / or a
+// port. A domain name carries no IP address (the server does not resolve it), so a domain request
+// declares at most a port; whatever the form, the owner stays the host of the control connection.
+func (c c22Config) class() string {
+	if c.form() != "domain" {
+		return c.Declared
+	}
+	switch c.Declared {
+	case "ip+port", "port-only":
+		return "port-only"
+	}
+	return "none"
+}
+
+// c22FormTag prefixes keys of the non-IPv4 forms (the IPv4 keys stay as they were).
+func c22FormTag(c c22Config) string {
+	if c.form() == "ipv4" {
+		return ""
+	}
+	return c.form() + ":"
+}
+
+// wire: "<address>:<port>" as written into the request, for messages.
+func (c c22Config) wire() string {
+	specific := c.Declared == "ip-only" || c.Declared == "ip+port"
+	port := "0"
+	if c.Declared == "ip+port" || c.Declared == "port-only" {
+		port = "<client port>"
+	}
+	var a string
+	switch c.form() {
+	case "ipv6":
+		a = "[::]"
+		if specific {
+			a = "[::ffff:127.0.0.1]"
+		}
+	case "domain":
+		a = `domain "0.0.0.0"`
+		if specific {
+			a = `domain "localhost"`
+		}
+	default:
+		a = "0.0.0.0"
+		if specific {
+			a = "127.0.0.1"
+		}
+	}
+	return a + ":" + port
+}
+
+// c22Request: greeting (no authentication) + UDP ASSOCIATE with the configured address form.
+func c22Request(cfg c22Config, cport int) ([]byte, error) {
+	var specific bool
+	var port int
+	switch cfg.Declared {
+	case "none":
+	case "ip-only":
+		specific = true
+	case "ip+port":
+		specific, port = true, cport
+	case "port-only":
+		port = cport
+	default:
+		return nil, fmt.Errorf("bad declared variant %q", cfg.Declared)
+	}
+	req := []byte{5, 1, 0, 5, 3, 0}
+	switch cfg.form() {
+	case "ipv4":
+		req = append(req, AddrTypeIPv4)
+		if specific {
+			req = append(req, 127, 0, 0, 1)
+		} else {
+			req = append(req, 0, 0, 0, 0)
+		}
+	case "ipv6":
+		req = append(req, AddrTypeIPv6)
+		a := make([]byte, 16) // "::"
+		if specific {
+			a = []byte(net.IPv4(127, 0, 0, 1).To16()) // the client's own address in the 16-byte form
+		}
+		req = append(req, a...)
+	case "domain":
+		name := "0.0.0.0" // the unspecified address written as a name
+		if specific {
+			name = "localhost"
+		}
+		req = append(req, AddrTypeDomain, byte(len(name)))
+		req = append(req, name...)
+	default:
+		return nil, fmt.Errorf("bad address form %q", cfg.Form)
+	}
+	return append(req, byte(port>>8), byte(port)), nil
 }
 
 type c22Replay struct {
@@ -280,18 +389,9 @@ func c22Execute(x *c22Senders, cfg c22Config, events string) (steps []c22Step, e
 	srv := NewServer(ServerConfig{Address: bind + ":1080", Authenticators: []Authenticator{&NoAuthAuthenticator{}}})
 	srv.SetUDPHandler(mesh)
 	cport := x.c.LocalAddr().(*net.UDPAddr).Port
-	req := []byte{5, 1, 0, 5, 3, 0, 1}
-	switch cfg.Declared {
-	case "none":
-		req = append(req, 0, 0, 0, 0, 0, 0)
-	case "ip-only":
-		req = append(req, 127, 0, 0, 1, 0, 0)
-	case "ip+port":
-		req = append(req, 127, 0, 0, 1, byte(cport>>8), byte(cport))
-	case "port-only":
-		req = append(req, 0, 0, 0, 0, byte(cport>>8), byte(cport))
-	default:
-		return nil, fmt.Errorf("bad declared variant %q", cfg.Declared)
+	req, err := c22Request(cfg, cport)
+	if err != nil {
+		return nil, err
 	}
 	var remote net.Addr
 	if cfg.Control == "tcp" {
@@ -391,7 +491,7 @@ func c22Execute(x *c22Senders, cfg c22Config, events string) (steps []c22Step, e
 
 func TestVerif_C22(t *testing.T) {
 	r := vmc.New("C22", "model_checking")
-	r.Rule = "every event sequence up to the length bound over {client sends, same-host-other-port sends, stranger (127.0.0.2) sends, reply from the mesh} on a real UDPAssociation created by the real handleUDPAssociate, for every ASSOCIATE address variant x server bind address x control-connection kind; state = (configuration, recorded client address class, classes relayed so far); a case is non-trivial when a non-client sender's datagram was processed or a reply was written; distinct = (configuration, event, who was relayed, who got the reply)"
+	r.Rule = "every event sequence up to the length bound over {client sends, same-host-other-port sends, stranger (127.0.0.2) sends, stranger on the client's port number sends, reply from the mesh} on a real UDPAssociation created by the real handleUDPAssociate, for every ASSOCIATE address variant (address type ipv4 / ipv6 / domain x unspecified / own address x port 0 / own port) x server bind address x control-connection kind; state = (configuration, recorded client address class, classes relayed so far); a case is non-trivial when a non-client sender's datagram was processed or a reply was written; distinct = (configuration, event, who was relayed, who got the reply)"
 	r.Assume("Linux loopback: sendto() to 127.0.0.1 queues the datagram synchronously; 127.0.0.2 is a usable source address")
 	r.Assume("the owner of an association is the host of its control connection (RFC 1928: the declared address only restricts further); a same-host sender on another port is only distinguishable when the client declared its port")
 	x := &c22Senders{}
@@ -438,6 +538,10 @@ func TestVerif_C22(t *testing.T) {
 	Lbase := vmc.Pick(r, 3, 5)
 	r.Info["max_events"] = L
 	r.Info["max_events_tcp_loopback"] = Lbase
+	// the IPv6 and domain-name forms of the ASSOCIATE address (8 more request forms per bind x control)
+	Lform := vmc.Pick(r, 2, 3)
+	r.Info["max_events_ipv6_and_domain_forms"] = Lform
+	r.Info["associate_address_forms"] = "address type {ipv4, ipv6, domain} x address {unspecified, the client's own} x port {0, the client's}"
 	states := map[string]bool{}
 	alphabet := "CSTOR" // simplest counterexamples first: client, stranger, stranger on the client's port number, other port, reply
 
@@ -451,6 +555,7 @@ func TestVerif_C22(t *testing.T) {
 		r.Add("evaluations", 1)
 		r.Add("transitions", int64(len(steps)))
 		relayedClasses := map[byte]bool{}
+		cls, wire := cfg.class(), cfg.wire()
 		first := "-"
 		for i, st := range steps {
 			replay = c22Replay{Config: cfg, Events: events[:i+1]}
@@ -461,28 +566,28 @@ func TestVerif_C22(t *testing.T) {
 				cl := p[0]
 				relayedClasses[cl] = true
 				switch {
-				case cl == 'T' && cfg.Declared == "ip+port":
-					r.Violate(fmt.Sprintf("C22/stranger-same-port-datagram-relayed/%s/%s-control", cfg.Declared, cfg.Control),
-						fmt.Sprintf("datagram %q from 127.0.0.2:<the client's port number> (another host) was handed to RelayUDPDatagram although the client declared 127.0.0.1:<port>; bind %s, control %s, events %q (step %d)", p, cfg.Bind, cfg.Control, events, i), replay)
+				case cl == 'T' && cls == "ip+port":
+					r.Violate(fmt.Sprintf("C22/stranger-same-port-datagram-relayed/%s/%s-control", cls, cfg.Control),
+						fmt.Sprintf("datagram %q from 127.0.0.2:<the client's port number> (another host) was handed to RelayUDPDatagram although the client declared its own address and port (ASSOCIATE %s); bind %s, control %s, events %q (step %d)", p, wire, cfg.Bind, cfg.Control, events, i), replay)
 				case cl == 'S' || cl == 'T':
-					r.Violate(fmt.Sprintf("C22/stranger-datagram-relayed/%s/%s-control", cfg.Declared, cfg.Control),
-						fmt.Sprintf("datagram %q from 127.0.0.2 (not the control connection's host) was handed to RelayUDPDatagram; ASSOCIATE address %s, bind %s, control %s, events %q (step %d)", p, cfg.Declared, cfg.Bind, cfg.Control, events, i), replay)
-				case cl == 'O' && cfg.Declared == "ip+port":
-					r.Violate(fmt.Sprintf("C22/other-port-datagram-relayed/%s/%s-control", cfg.Declared, cfg.Control),
-						fmt.Sprintf("datagram %q from 127.0.0.1:<other port> was relayed although the client declared 127.0.0.1:<its port>; events %q (step %d)", p, events, i), replay)
+					r.Violate(fmt.Sprintf("C22/stranger-datagram-relayed/%s/%s-control", cls, cfg.Control),
+						fmt.Sprintf("datagram %q from 127.0.0.2 (not the control connection's host) was handed to RelayUDPDatagram; ASSOCIATE address %s (%s), bind %s, control %s, events %q (step %d)", p, wire, cls, cfg.Bind, cfg.Control, events, i), replay)
+				case cl == 'O' && cls == "ip+port":
+					r.Violate(fmt.Sprintf("C22/other-port-datagram-relayed/%s/%s-control", cls, cfg.Control),
+						fmt.Sprintf("datagram %q from 127.0.0.1:<other port> was relayed although the client declared its own address and port (ASSOCIATE %s); events %q (step %d)", p, wire, events, i), replay)
 				}
 			}
 			if st.ev == 'R' {
-				if strings.Contains(st.replyTo, "T") && cfg.Declared == "ip+port" {
-					r.Violate(fmt.Sprintf("C22/reply-to-stranger-same-port/%s/%s-control", cfg.Declared, cfg.Control),
-						fmt.Sprintf("the reply was delivered to 127.0.0.2:<the client's port number> (first sender %s, recorded client %s) although the client declared 127.0.0.1:<port>; bind %s, control %s, events %q (step %d)", first, st.actual, cfg.Bind, cfg.Control, events, i), replay)
+				if strings.Contains(st.replyTo, "T") && cls == "ip+port" {
+					r.Violate(fmt.Sprintf("C22/reply-to-stranger-same-port/%s/%s-control", cls, cfg.Control),
+						fmt.Sprintf("the reply was delivered to 127.0.0.2:<the client's port number> (first sender %s, recorded client %s) although the client declared its own address and port (ASSOCIATE %s); bind %s, control %s, events %q (step %d)", first, st.actual, wire, cfg.Bind, cfg.Control, events, i), replay)
 				} else if strings.ContainsAny(st.replyTo, "ST") {
-					r.Violate(fmt.Sprintf("C22/reply-to-stranger/%s/%s-control", cfg.Declared, cfg.Control),
-						fmt.Sprintf("the reply was delivered to 127.0.0.2 (first sender %s, recorded client %s); ASSOCIATE address %s, bind %s, control %s, events %q (step %d)", first, st.actual, cfg.Declared, cfg.Bind, cfg.Control, events, i), replay)
+					r.Violate(fmt.Sprintf("C22/reply-to-stranger/%s/%s-control", cls, cfg.Control),
+						fmt.Sprintf("the reply was delivered to 127.0.0.2 (first sender %s, recorded client %s); ASSOCIATE address %s (%s), bind %s, control %s, events %q (step %d)", first, st.actual, wire, cls, cfg.Bind, cfg.Control, events, i), replay)
 				}
-				if strings.Contains(st.replyTo, "O") && cfg.Declared == "ip+port" {
-					r.Violate(fmt.Sprintf("C22/reply-to-other-port/%s/%s-control", cfg.Declared, cfg.Control),
-						fmt.Sprintf("the reply was delivered to 127.0.0.1:<other port> although the client declared its port; events %q (step %d)", events, i), replay)
+				if strings.Contains(st.replyTo, "O") && cls == "ip+port" {
+					r.Violate(fmt.Sprintf("C22/reply-to-other-port/%s/%s-control", cls, cfg.Control),
+						fmt.Sprintf("the reply was delivered to 127.0.0.1:<other port> although the client declared its port (ASSOCIATE %s); events %q (step %d)", wire, events, i), replay)
 				}
 			}
 			rc := ""
@@ -493,7 +598,7 @@ func TestVerif_C22(t *testing.T) {
 			}
 			states[fmt.Sprintf("%v|%s|%s", cfg, st.actual, rc)] = true
 			if st.ev != 'C' {
-				r.Nontrivial(fmt.Sprintf("%s/%s/%s|%c|relayed:%s|reply:%s%s", cfg.Declared, cfg.Bind, cfg.Control, st.ev, strings.Join(st.relayed, ","), st.replyTo, st.werr))
+				r.Nontrivial(fmt.Sprintf("%s%s/%s/%s|%c|relayed:%s|reply:%s%s", c22FormTag(cfg), cfg.Declared, cfg.Bind, cfg.Control, st.ev, strings.Join(st.relayed, ","), st.replyTo, st.werr))
 			}
 			r.Outcome(fmt.Sprintf("%c|relayed%d|reply:%s|%s|actual:%s", st.ev, len(st.relayed), st.replyTo, st.werr, st.actual))
 		}
@@ -512,35 +617,45 @@ func TestVerif_C22(t *testing.T) {
 	} else {
 		var execs, points int64
 		complete := true
-		for _, control := range []string{"tcp", "ws"} {
-			for _, bind := range []string{"loopback", "any"} {
-				for _, decl := range []string{"none", "ip-only", "ip+port", "port-only"} {
-					cfg := c22Config{Declared: decl, Bind: bind, Control: control}
-					// lengths 1..L in turn, so that the first counterexample of a fingerprint is a
-					// shortest one; an execution of length n also re-checks all its prefixes
-					var st vmc.DFSStats
-					lim := L
-					if control == "tcp" && bind == "loopback" {
-						lim = Lbase
-					}
-					for n := 1; n <= lim; n++ {
-						sn := vmc.Explore(r, func(c *vmc.Chooser) {
-							ev := make([]byte, n)
-							for i := range ev {
-								ev[i] = alphabet[c.Choose(len(alphabet), 0, "event")]
-							}
-							evaluate(cfg, string(ev), nil)
-						}, vmc.DFSOpts{Bound: -1})
-						st.Executions += sn.Executions
-						st.Points += sn.Points
-						st.Complete = sn.Complete
-						if !sn.Complete {
-							break
+		// the IPv4 forms first (all configurations), then the same grid with the address written as
+		// IPv6 and as a domain name
+		for _, form := range c22Forms {
+			for _, control := range []string{"tcp", "ws"} {
+				for _, bind := range []string{"loopback", "any"} {
+					for _, decl := range []string{"none", "ip-only", "ip+port", "port-only"} {
+						cfg := c22Config{Declared: decl, Bind: bind, Control: control}
+						if form != "ipv4" {
+							cfg.Form = form
 						}
+						// lengths 1..L in turn, so that the first counterexample of a fingerprint is a
+						// shortest one; an execution of length n also re-checks all its prefixes
+						var st vmc.DFSStats
+						lim := L
+						if control == "tcp" && bind == "loopback" {
+							lim = Lbase
+						}
+						if form != "ipv4" {
+							lim = Lform
+						}
+						for n := 1; n <= lim; n++ {
+							sn := vmc.Explore(r, func(c *vmc.Chooser) {
+								ev := make([]byte, n)
+								for i := range ev {
+									ev[i] = alphabet[c.Choose(len(alphabet), 0, "event")]
+								}
+								evaluate(cfg, string(ev), nil)
+							}, vmc.DFSOpts{Bound: -1})
+							st.Executions += sn.Executions
+							st.Points += sn.Points
+							st.Complete = sn.Complete
+							if !sn.Complete {
+								break
+							}
+						}
+						execs += st.Executions
+						points += st.Points
+						complete = complete && st.Complete
 					}
-					execs += st.Executions
-					points += st.Points
-					complete = complete && st.Complete
 				}
 			}
 		}
